@@ -19,7 +19,7 @@ LEVEL_TEXT = ("Round-trip property over all decodable definitions and all field 
               "from_json() must give back the same addressing and field values under the stated renderings, and the parsed message must "
               "encode to the same bytes. Dump files are compared with the returned messages for generated dump filters and histories.")
 TECHNIQUE = "round-trip property (to_json / strict parse / from_json / re-encode) + dump-file model over generated histories (Hypothesis)"
-RULE = ("all decodable definitions x payloads (any-class and accepted modes) x {no identity, after an address claim with network map on}; "
+RULE = ("all decodable definitions x payloads (any-class and accepted modes) x {no identity, after an address claim with network map on} x entry point (basic string; tcp, usb bytes / bytearray, YD, Actisense for single frames); "
         "oracle: json.loads strict; same PGN/id/source/destination/priority; per field same id, value, raw value with bytes->hex, "
         "date/time->ISO text; encode(from_json(to_json(m))) == encode(m); dump file after close() == JSON of exactly the returned "
         "messages matching the dump filter, in order; non-trivial = message with a field whose Python value is not JSON-native, or a dump "
